@@ -271,6 +271,21 @@ def entries_check(lib_raw=None):
 
 
 
+def stateless_check():
+    """frame condition of everything outside the parser crate: no static, thread_local, lazy or atomic state, so a
+    preprocess/parse wrapper can read nothing but its arguments and the files it opens"""
+    failures = []
+    checked = 0
+    for crate in ('sv-parser-pp', 'sv-parser', 'sv-parser-syntaxtree', 'sv-parser-error', 'sv-parser-macros'):
+        for rel, raw in crate_text(crate):
+            src = front.blank_strings(raw)
+            checked += 1
+            for pat in (r'thread_local!', r'lazy_static!', r'\bOnceCell\b', r'\bOnceLock\b', r'\bAtomic\w+\b', r'\bLazyLock\b', r'(?<![\w\'])static\s+mut\b', r'(?<![\w\'&])static\s+\w+\s*:\s*(?!&\s*(?:\'static\s+)?str)'):
+                for m in re.finditer(pat, src):
+                    failures.append(fail('-', 'C07.state-outside-parser-crate', 'global state in %s through %s' % (crate, pat), ['C07', 'C19', 'C20'], Dummy(rel, raw.count('\n', 0, m.start()) + 1)))
+    return dict(failures=failures, checked=checked)
+
+
 def effects_run(fns, table, comb):
     failures = []
     checked = 0
@@ -301,14 +316,9 @@ def effects_run(fns, table, comb):
         m = re.search(r'nom_packrat::storage!\s*\(([^)]*)\)', raw)
         if m:
             storage = (rel, raw.count('\n', 0, m.start()) + 1, [x.strip() for x in m.group(1).split(',')])
-    # ---- other crates hold no state at all
-    for crate in ('sv-parser-pp', 'sv-parser', 'sv-parser-syntaxtree', 'sv-parser-error', 'sv-parser-macros'):
-        for rel, raw in crate_text(crate):
-            src = front.blank_strings(raw)
-            checked += 1
-            for pat in (r'thread_local!', r'lazy_static!', r'\bOnceCell\b', r'\bOnceLock\b', r'\bAtomic\w+\b', r'\bLazyLock\b', r'(?<![\w\'])static\s+mut\b', r'(?<![\w\'&])static\s+\w+\s*:\s*(?!&\s*(?:\'static\s+)?str)'):
-                for m in re.finditer(pat, src):
-                    failures.append(fail('-', 'C07.state-outside-parser-crate', 'global state in %s through %s' % (crate, pat), ['C07', 'C19'], Dummy(rel, raw.count('\n', 0, m.start()) + 1)))
+    sc = stateless_check()
+    checked += sc['checked']
+    failures += sc['failures']
     # ---- direct effects of the accessor functions (their bodies name the thread-local)
     direct = {}
     for f in fns:
